@@ -10,6 +10,7 @@ import (
 	"strings"
 
 	corev1 "k8s.io/api/core/v1"
+	discoveryv1 "k8s.io/api/discovery/v1"
 	kruntime "k8s.io/apimachinery/pkg/runtime"
 
 	"istio.io/istio/pilot/pkg/model"
@@ -312,39 +313,11 @@ func (w *world) snapshot(final map[objID]kruntime.Object, addrs []nsIP) *snapsho
 }
 
 type diffEntry struct {
-	Key    string // kind of difference, without the tier (stable)
-	Tiered bool   // whether the arrival-order tier is part of the kind (see keyOf)
-	ID     string // which datum differs (independent of the comparison it was found by)
-	Detail string
-}
-
-// keyOf: the kind of a difference. A kind names the datum class and, where it separates
-// different failures, the endpoint's health and whether the order was the cluster's true order:
-//   - a stale datum on an endpoint that is not healthy anyway, or only under reordered
-//     streams, is another failure than the same datum stale on a healthy endpoint in true order.
-func (d diffEntry) keyOf(tier string) string {
-	if !d.Tiered {
-		return d.Key
-	}
-	if tier != "true-order" {
-		tier = "reordered"
-	}
-	return d.Key + ":order=" + tier
-}
-
-// quals qualify a difference by facts of the final objects: whether any proxy can import the
-// service, and whether the pod behind an endpoint is Ready (the registry ignores pod events
-// until a pod is Ready, so "its pod is not ready" separates one family of failures from others).
-type quals struct {
-	svc func(svcKey string) string
-	pod func(ns, name string) string
-}
-
-func (q quals) podOf(x map[string]string) string {
-	if x["workloadName"] == "" {
-		return "no-pod"
-	}
-	return q.pod(x["namespace"], x["workloadName"])
+	Key        string // kind of difference: root cause where one was recognised, else the datum class
+	Explained  bool
+	Unasserted string // non-empty: outside what the property covers; counted under this name, not asserted
+	ID         string // which datum differs (independent of the comparison it was found by)
+	Detail     string
 }
 
 // field classes of an endpoint
@@ -352,20 +325,49 @@ var endpointFieldClasses = map[string]string{
 	"locality": "node-derived-metadata", "nodeName": "node-derived-metadata",
 	"serviceAccount": "pod-metadata", "tlsMode": "pod-metadata", "workloadName": "pod-metadata", "namespace": "pod-metadata",
 	"hostName": "pod-metadata", "subDomain": "pod-metadata",
-	"network": "network", "endpointPort": "port", "servicePortName": "port", "addresses": "addresses",
-	"sendUnhealthy": "send-unhealthy", "lbWeight": "lb-weight", "discoverability": "discoverability", "localityCluster": "cluster",
+	"network": "network", "endpointPort": "port", "servicePortName": "port", "addresses": "addresses", "health": "health",
+	"lbWeight": "lb-weight", "discoverability": "discoverability", "localityCluster": "cluster",
 }
 
-// diffSnap compares two snapshots; ra/rb name the roles (e.g. "live", "cold"); q qualifies a
-// service key (exported to nobody / absent from the final objects).
-func diffSnap(cmp string, a, b *snapshot, ra, rb string, q quals) []diffEntry {
+// unassertedEndpointFields: data of the registry's own bookkeeping that reach no proxy.
+// sendUnhealthy only decides whether the arrival of an unhealthy endpoint triggers a push.
+var unassertedEndpointFields = map[string]string{"sendUnhealthy": "endpoint_push_hint_differences_not_asserted"}
+
+func finalHidden(final map[objID]kruntime.Object) func(svcKey string) bool {
+	return func(k string) bool {
+		name, ns := splitSvcKey(k)
+		s, ok := final[objID{kService, ns, name}].(*corev1.Service)
+		return ok && exportedToNobody(s)
+	}
+}
+
+// diffSnap compares two snapshots; ra/rb name the roles (e.g. "live", "cold"). x (may be nil)
+// names root causes for the live-vs-cold comparison; hidden tells which services no proxy can
+// import according to the final objects.
+func diffSnap(cmp string, a, b *snapshot, ra, rb string, x *explainer, hidden func(string) bool) []diffEntry {
 	var out []diffEntry
 	prefix := ""
 	if cmp != "live-vs-cold" {
 		prefix = cmp + ":"
 	}
-	add := func(key string, tiered bool, id, detail string) {
-		out = append(out, diffEntry{Key: prefix + key, Tiered: tiered, ID: id, Detail: detail})
+	add := func(generic, cause, id, detail string) {
+		e := diffEntry{Key: prefix + generic, ID: id, Detail: detail}
+		if cause != "" {
+			e.Key, e.Explained = prefix+cause, true
+		}
+		out = append(out, e)
+	}
+	unasserted := func(counter, id, detail string) {
+		out = append(out, diffEntry{Unasserted: counter, ID: id, Detail: detail})
+	}
+	why := func(k, ek string) string {
+		if x == nil {
+			return ""
+		}
+		if d := x.describe(k, ek); d != "" {
+			return " {" + d + "}"
+		}
+		return ""
 	}
 
 	for _, h := range unionKeys(a.Services, b.Services) {
@@ -373,13 +375,19 @@ func diffSnap(cmp string, a, b *snapshot, ra, rb string, q quals) []diffEntry {
 		sb, okb := b.Services[h]
 		switch {
 		case !okb:
-			add("service:only-in-"+ra, true, "service|"+h, fmt.Sprintf("service %s exists only in %s: %s", h, ra, renderMap(sa)))
+			add("service:only-in-"+ra, "", "service|"+h, fmt.Sprintf("service %s exists only in %s: %s", h, ra, renderMap(sa)))
 		case !oka:
-			add("service:only-in-"+rb, true, "service|"+h, fmt.Sprintf("service %s exists only in %s: %s", h, rb, renderMap(sb)))
+			add("service:only-in-"+rb, "", "service|"+h, fmt.Sprintf("service %s exists only in %s: %s", h, rb, renderMap(sb)))
 		default:
 			for _, f := range unionKeys(sa, sb) {
 				if sa[f] != sb[f] {
-					add("service:field="+f, true, "service|"+h+"|"+f, fmt.Sprintf("service %s %s: %s=%q %s=%q", h, f, ra, sa[f], rb, sb[f]))
+					cause := ""
+					if x != nil {
+						if c := x.serviceField(h, f, sa[f], sb[f]); c != "" {
+							cause = "service:stale-traffic-distribution:" + c
+						}
+					}
+					add("service:field="+f, cause, "service|"+h+"|"+f, fmt.Sprintf("service %s %s: %s=%q %s=%q", h, f, ra, sa[f], rb, sb[f]))
 				}
 			}
 		}
@@ -387,91 +395,93 @@ func diffSnap(cmp string, a, b *snapshot, ra, rb string, q quals) []diffEntry {
 	endpointsDiffer := map[string]bool{}
 	for _, k := range unionKeys(a.Endpoints, b.Endpoints) {
 		ea, eb := a.Endpoints[k], b.Endpoints[k]
-		sq := q.svc(k)
 		for _, ek := range unionKeys(ea, eb) {
 			xa, oka := ea[ek]
 			xb, okb := eb[ek]
 			id := "endpoint|" + k + "|" + ek
-			if sq == ":svc=exported-to-nobody" && (!oka || !okb || renderMap(xa) != renderMap(xb)) {
-				// no proxy can import the service: whatever the index holds for it is unobservable
-				endpointsDiffer[k] = true
-				add("unexported-service:endpoint-index-not-maintained", false, id,
-					fmt.Sprintf("service [%s] (exported to nobody) endpoint [%s]: %s=%s | %s=%s", k, ek, ra, renderMap(xa), rb, renderMap(xb)))
-				continue
-			}
-			if sq == ":svc=was-exported-to-nobody" && (!oka || !okb || renderMap(xa) != renderMap(xb)) {
-				// the endpoints were not maintained while the service was hidden; whatever is stale
-				// after it became visible again is one kind of failure (and observable)
-				endpointsDiffer[k] = true
-				add("service-visible-again:endpoint-index-stale", false, id,
-					fmt.Sprintf("service [%s] (was exported to nobody for a while) endpoint [%s]: %s=%s | %s=%s", k, ek, ra, renderMap(xa), rb, renderMap(xb)))
+			if hidden(k) {
+				// no proxy can import the service: whatever the index holds for it reaches nobody
+				if !oka || !okb || renderMap(xa) != renderMap(xb) {
+					endpointsDiffer[k] = true
+					unasserted("endpoint_differences_of_services_exported_to_nobody_not_asserted", id,
+						fmt.Sprintf("service [%s] (exported to nobody) endpoint [%s]: %s=%s | %s=%s", k, ek, ra, renderMap(xa), rb, renderMap(xb)))
+				}
 				continue
 			}
 			switch {
 			case !okb:
 				endpointsDiffer[k] = true
-				add(fmt.Sprintf("endpoint:only-in-%s:%s%s", ra, q.podOf(xa), sq), true, id,
-					fmt.Sprintf("service [%s] endpoint [%s] exists only in %s: %s", k, ek, ra, renderMap(xa)))
+				cause := ""
+				if x != nil {
+					if c := x.endpointOnlyInLive(k, ek, len(eb)); c != "" {
+						cause = "endpoint-index:stale-endpoint-kept:" + c
+					}
+				}
+				add("endpoint:only-in-"+ra, cause, id, fmt.Sprintf("service [%s] endpoint [%s] exists only in %s: %s%s", k, ek, ra, renderMap(xa), why(k, ek)))
 			case !oka:
 				endpointsDiffer[k] = true
-				add(fmt.Sprintf("endpoint:only-in-%s:%s%s", rb, q.podOf(xb), sq), true, id,
-					fmt.Sprintf("service [%s] endpoint [%s] exists only in %s: %s", k, ek, rb, renderMap(xb)))
+				cause := ""
+				if x != nil {
+					if c := x.endpointOnlyInCold(k, ek); c != "" {
+						cause = "endpoint:missing:" + c
+					}
+				}
+				add("endpoint:only-in-"+rb, cause, id, fmt.Sprintf("service [%s] endpoint [%s] exists only in %s: %s%s", k, ek, rb, renderMap(xb), why(k, ek)))
 			default:
-				// the pod's own network label (and the network derived from it) is pod metadata
-				// when other pod metadata is stale with it
-				podMetaDiffers := false
+				// differing fields by class
+				byClass := map[string][]string{}
 				for _, f := range unionKeys(xa, xb) {
 					if xa[f] == xb[f] {
 						continue
 					}
-					if endpointFieldClasses[f] == "pod-metadata" {
-						podMetaDiffers = true
-					}
-					if f == "labels" {
-						for _, c := range labelClasses(xa[f], xb[f]) {
-							if c == "pod-metadata" {
-								podMetaDiffers = true
-							}
-						}
-					}
-				}
-				for _, f := range unionKeys(xa, xb) {
-					if xa[f] == xb[f] {
+					if counter, ok := unassertedEndpointFields[f]; ok {
+						unasserted(counter, id+"|"+f, fmt.Sprintf("service [%s] endpoint [%s] %s: %s=%q %s=%q", k, ek, f, ra, xa[f], rb, xb[f]))
 						continue
 					}
 					endpointsDiffer[k] = true
-					det := fmt.Sprintf("service [%s] endpoint [%s] %s: %s=%q %s=%q", k, ek, f, ra, xa[f], rb, xb[f])
-					h2 := q.podOf(xb)
-					var classes []string
-					switch f {
-					case "health":
-						hs := []string{xa[f], xb[f]}
-						sort.Strings(hs)
-						// not tiered: which of the two a not-ready endpoint gets is decided by
-						// whether its service was known when the slice was converted
-						add("endpoint:health("+hs[0]+"|"+hs[1]+")"+sq, hs[0] == "Healthy" || hs[1] == "Healthy", id+"|"+f, det)
+					if f == "labels" {
+						la, lb := parseLabels(xa[f]), parseLabels(xb[f])
+						for _, lk := range unionKeys(la, lb) {
+							if la[lk] != lb[lk] {
+								c := labelClass(lk)
+								byClass[c] = append(byClass[c], "label:"+lk)
+							}
+						}
 						continue
-					case "labels":
-						classes = labelClasses(xa[f], xb[f])
-					default:
-						c, ok := endpointFieldClasses[f]
-						if !ok {
-							c = f
-						}
-						classes = []string{c}
 					}
-					for _, c := range classes {
-						if c == "network" && podMetaDiffers {
-							continue
-						}
-						if c == "node-derived-metadata" {
-							// locality / node name / topology labels are captured when the endpoint is
-							// built and never refreshed: one kind, whatever the health or the order
-							add("endpoint:"+c, false, id+"|"+f, det)
+					c, ok := endpointFieldClasses[f]
+					if !ok {
+						c = f
+					}
+					byClass[c] = append(byClass[c], f)
+				}
+				for _, c := range sortedKeys(byClass) {
+					fields := byClass[c]
+					var vals []string
+					for _, f := range fields {
+						if strings.HasPrefix(f, "label:") {
+							lk := strings.TrimPrefix(f, "label:")
+							vals = append(vals, fmt.Sprintf("%s: %s=%q %s=%q", f, ra, parseLabels(xa["labels"])[lk], rb, parseLabels(xb["labels"])[lk]))
 						} else {
-							add("endpoint:"+c+":"+h2+sq, true, id+"|"+f, det)
+							vals = append(vals, fmt.Sprintf("%s: %s=%q %s=%q", f, ra, xa[f], rb, xb[f]))
 						}
 					}
+					cause := ""
+					if x != nil {
+						if cc := x.endpointClass(k, ek, c, fields, xa, xb); cc != "" {
+							cause = "endpoint:stale:" + cc
+							if cc == causeRecomputeEmpty {
+								cause = "endpoint-index:stale-endpoint-kept:" + cc
+							}
+						}
+					}
+					generic := "endpoint:" + c
+					if c == "health" {
+						hs := []string{xa["health"], xb["health"]}
+						sort.Strings(hs)
+						generic = "endpoint:health(" + hs[0] + "|" + hs[1] + ")"
+					}
+					add(generic, cause, id+"|"+c, fmt.Sprintf("service [%s] endpoint [%s] %s%s", k, ek, strings.Join(vals, "; "), why(k, ek)))
 				}
 			}
 		}
@@ -479,11 +489,22 @@ func diffSnap(cmp string, a, b *snapshot, ra, rb string, q quals) []diffEntry {
 	for _, k := range unionKeys(a.ShardSAs, b.ShardSAs) {
 		// when the endpoint sets differ, differing service accounts are implied; the recorded set
 		// is a datum of its own only where the endpoint sets agree
-		if a.ShardSAs[k] != b.ShardSAs[k] && !endpointsDiffer[k] {
-			add("shard-service-accounts:left-behind", false, "shard-sa|"+k,
-				fmt.Sprintf("service [%s] service accounts recorded on the shards although the endpoint sets agree: %s=%q %s=%q (endpoints: %s=%d %s=%d)",
-					k, ra, a.ShardSAs[k], rb, b.ShardSAs[k], ra, len(a.Endpoints[k]), rb, len(b.Endpoints[k])))
+		if a.ShardSAs[k] == b.ShardSAs[k] || endpointsDiffer[k] {
+			continue
 		}
+		det := fmt.Sprintf("service [%s] service accounts recorded on the shards differ although the endpoint sets agree: %s=%q %s=%q (endpoints: %s=%d %s=%d)",
+			k, ra, a.ShardSAs[k], rb, b.ShardSAs[k], ra, len(a.Endpoints[k]), rb, len(b.Endpoints[k]))
+		if hidden(k) {
+			unasserted("endpoint_differences_of_services_exported_to_nobody_not_asserted", "shard-sa|"+k, det)
+			continue
+		}
+		cause := ""
+		if x != nil {
+			if c := x.shardSAs(a.ShardSAs[k], b.ShardSAs[k], len(a.Endpoints[k]), len(b.Endpoints[k])); c != "" {
+				cause = "shard-service-accounts:left-behind:" + c
+			}
+		}
+		add("shard-service-accounts", cause, "shard-sa|"+k, det)
 	}
 	for _, k := range unionKeys(a.Proxies, b.Proxies) {
 		mode := strings.SplitN(k, " ", 2)[0]
@@ -492,17 +513,116 @@ func diffSnap(cmp string, a, b *snapshot, ra, rb string, q quals) []diffEntry {
 				key := "proxy-" + mode + ":" + f
 				if f == "labels" {
 					for _, c := range labelClasses(a.Proxies[k][f], b.Proxies[k][f]) {
-						add(key+"("+c+")", c != "node-derived-metadata", "proxy|"+k+"|"+f, fmt.Sprintf("proxy [%s] %s: %s=%q %s=%q", k, f, ra, a.Proxies[k][f], rb, b.Proxies[k][f]))
+						add(key+"("+c+")", "", "proxy|"+k+"|"+f, fmt.Sprintf("proxy [%s] %s: %s=%q %s=%q", k, f, ra, a.Proxies[k][f], rb, b.Proxies[k][f]))
 					}
 					continue
 				}
-				add(key, true, "proxy|"+k+"|"+f, fmt.Sprintf("proxy [%s] %s: %s=%q %s=%q", k, f, ra, a.Proxies[k][f], rb, b.Proxies[k][f]))
+				add(key, "", "proxy|"+k+"|"+f, fmt.Sprintf("proxy [%s] %s: %s=%q %s=%q", k, f, ra, a.Proxies[k][f], rb, b.Proxies[k][f]))
 			}
 		}
 	}
 	for _, k := range unionKeys(a.Misc, b.Misc) {
 		if a.Misc[k] != b.Misc[k] {
-			add("misc:"+k, false, "misc|"+k, fmt.Sprintf("%s: %s=%q %s=%q", k, ra, a.Misc[k], rb, b.Misc[k]))
+			cause := ""
+			if x != nil && k == "networkGateways" {
+				if c := x.networkGateways(a.Misc[k], b.Misc[k]); c != "" {
+					cause = "network-gateways:stale-node-address:" + c
+				}
+			}
+			add("misc:"+k, cause, "misc|"+k, fmt.Sprintf("%s: %s=%q %s=%q", k, ra, a.Misc[k], rb, b.Misc[k]))
+		}
+	}
+	return out
+}
+
+// referenceMembership: which endpoints the final objects define, by the documented meaning of
+// EndpointSlices alone (written without the controller): every address of every slice, once per
+// slice port, under the hostname of the service the slice is labelled with; an address whose
+// targetRef names a pod the pod watch does not show (absent or Failed) is not served.
+// "host ns" -> "addr port-name" -> target port.
+func referenceMembership(final map[objID]kruntime.Object) map[string]map[string]string {
+	out := map[string]map[string]string{}
+	for id, o := range final {
+		sl, ok := o.(*discoveryv1.EndpointSlice)
+		if !ok || sl.AddressType == discoveryv1.AddressTypeFQDN {
+			continue
+		}
+		name := sl.Labels[discoveryv1.LabelServiceName]
+		if name == "" {
+			continue
+		}
+		k := string(svcHost(name, id.NS)) + " " + id.NS
+		for _, e := range sl.Endpoints {
+			if e.TargetRef != nil && e.TargetRef.Kind == "Pod" {
+				p, ok := final[objID{kPod, id.NS, e.TargetRef.Name}].(*corev1.Pod)
+				if !ok || p.Status.Phase == corev1.PodFailed {
+					continue
+				}
+			}
+			for _, a := range e.Addresses {
+				for _, port := range sl.Ports {
+					pn, num := "", int32(0)
+					if port.Name != nil {
+						pn = *port.Name
+					}
+					if port.Port != nil {
+						num = *port.Port
+					}
+					if out[k] == nil {
+						out[k] = map[string]string{}
+					}
+					ek := a + " " + pn
+					if _, dup := out[k][ek]; !dup {
+						out[k][ek] = fmt.Sprint(num)
+					}
+				}
+			}
+		}
+	}
+	return out
+}
+
+// diffReference compares the cold-started controller's endpoint membership with the reference.
+// It catches what the differential oracle cannot: a conversion that is wrong whatever the order.
+func diffReference(cold *snapshot, final map[objID]kruntime.Object, hidden func(string) bool) []diffEntry {
+	ref := referenceMembership(final)
+	got := map[string]map[string]string{}
+	for k, eps := range cold.Endpoints {
+		for ek, f := range eps {
+			p := strings.Fields(ek) // shard, address, port name[, #n]
+			if len(p) < 2 {
+				continue
+			}
+			pn := ""
+			if len(p) > 2 && !strings.HasPrefix(p[2], "#") {
+				pn = p[2]
+			}
+			if got[k] == nil {
+				got[k] = map[string]string{}
+			}
+			got[k][p[1]+" "+pn] = f["endpointPort"]
+		}
+	}
+	var out []diffEntry
+	for _, k := range unionKeys(ref, got) {
+		if hidden(k) {
+			continue
+		}
+		for _, ek := range unionKeys(ref[k], got[k]) {
+			r, okr := ref[k][ek]
+			g, okg := got[k][ek]
+			id := "reference|" + k + "|" + ek
+			switch {
+			case okr && !okg:
+				out = append(out, diffEntry{Key: "cold-start-vs-final-objects:endpoint:missing", ID: id,
+					Detail: fmt.Sprintf("service [%s]: the final slices define endpoint [%s] (port %s); the cold-started controller has none", k, ek, r)})
+			case !okr && okg:
+				out = append(out, diffEntry{Key: "cold-start-vs-final-objects:endpoint:unexpected", ID: id,
+					Detail: fmt.Sprintf("service [%s]: the cold-started controller has endpoint [%s] (port %s); no final slice defines it", k, ek, g)})
+			case r != g:
+				out = append(out, diffEntry{Key: "cold-start-vs-final-objects:endpoint:port", ID: id,
+					Detail: fmt.Sprintf("service [%s] endpoint [%s]: port %s, the final slices say %s", k, ek, g, r)})
+			}
 		}
 	}
 	return out
